@@ -760,7 +760,7 @@ pub fn run(tier: Tier) -> i32 {
     ck.transitions = ck.evaluations;
     ck.distinct_nontrivial = inputs.load(Ordering::Relaxed);
     ck.rule = format!(
-        "(a) every byte string of length <= 3 in every fragmentation, max_size 0 and 2, for the v3, v5 and version-sniffing decoders; (a') first byte x Remaining Length 0..={maxrl} x all bodies over {{00,01,02,7f,80,ff,'a',23}} followed by a PINGREQ; (b) corpus of valid frames <= 64 bytes (v3 {} / v5 {} frames, every {}-th used): every truncation in every fragmentation (all 2^(n-1) up to 12 bytes, else whole/bytewise/single cuts) x min_chunk {{0,1,4}}, every single-byte substitution at every offset, Remaining-Length edits, prefix splices, and (v5) every property repeated / every property id of the specification added with consistent lengths. distinct_nontrivial = distinct inputs (each is a different byte string); states = inputs, transitions = decode runs",
+        "(a'') every first byte x four Remaining Length bytes over {{80,81,ff,00,01,7f}} (x a fifth byte where the fourth continues), whole and byte by byte: a header that is malformed whatever follows must be rejected, not answered need-more; an empty non-final payload piece is 'no-progress'; (a) every byte string of length <= 3 in every fragmentation, max_size 0 and 2, for the v3, v5 and version-sniffing decoders; (a') first byte x Remaining Length 0..={maxrl} x all bodies over {{00,01,02,7f,80,ff,'a',23}} followed by a PINGREQ; (b) corpus of valid frames <= 64 bytes (v3 {} / v5 {} frames, every {}-th used): every truncation in every fragmentation (all 2^(n-1) up to 12 bytes, else whole/bytewise/single cuts) x min_chunk {{0,1,4}}, every single-byte substitution at every offset, Remaining-Length edits, prefix splices, and (v5) every property repeated / every property id of the specification added with consistent lengths. distinct_nontrivial = distinct inputs (each is a different byte string); states = inputs, transitions = decode runs",
         corpus_sizes[0], corpus_sizes[1], if full { 1 } else { 6 }
     );
     ck.samples = vec![
